@@ -17,11 +17,12 @@ pub struct SearchCfg {
     pub max_depth: usize,
     /// extra query variables after the generated ones, never mentioned by the generated body
     pub reserved_q: usize,
+    pub fresh: bool,
 }
 
 impl SearchCfg {
     pub fn dfs() -> SearchCfg {
-        SearchCfg { nq_max: 2, max_goals: 8, diseq: true, calls: true, closures: true, max_depth: 3, reserved_q: 0 }
+        SearchCfg { nq_max: 2, max_goals: 8, diseq: true, calls: true, closures: true, max_depth: 3, reserved_q: 0, fresh: true }
     }
 }
 
@@ -146,7 +147,9 @@ impl<'a, 'b> SearchGen<'a, 'b> {
             if depth < self.cfg.max_depth {
                 w[1] = 5; // disjunction
                 w[2] = 1; // nested conjunction
-                w[3] = 2; // fresh
+                if self.cfg.fresh {
+                    w[3] = 2; // fresh
+                }
                 if self.cfg.closures {
                     w[4] = 1;
                 }
